@@ -251,6 +251,14 @@ impl Lower {
             Stmt::Done => self.ops.push(Op::Done),
             Stmt::End => self.ops.push(Op::End),
             Stmt::Return(e) => self.ops.push(Op::Return(e.clone())),
+            Stmt::Switch(var, cases, els) => {
+                // the first case equal to the value wins; the same shape as a conditional block
+                let branches: Vec<(Expr, Vec<Stmt>)> = cases
+                    .iter()
+                    .map(|(v, b)| (Expr::Bin("==", Box::new(Expr::Var(var.clone())), Box::new(Expr::int(*v))), b.clone()))
+                    .collect();
+                self.stmt(&Stmt::If(branches, els.clone()));
+            }
             Stmt::SeqBlock(kind, branches) => {
                 let id = self.nseq;
                 self.nseq += 1;
